@@ -18,6 +18,13 @@ from .project import HARNESS_DDL, Projector
 from .vtask import LEDGER, VerifTask
 
 
+def view_hash(view: dict) -> str:
+    import hashlib
+    import json as _json
+
+    return hashlib.sha1(_json.dumps(view, sort_keys=True, default=str).encode()).hexdigest()[:12]
+
+
 class MachineryError(Exception):
     pass
 
@@ -178,7 +185,7 @@ class Run:
         if self.exec_no in self.crash_at_exec:
             self._pending_crash = True   # raised at the engine's next SQL statement (main thread)
         self.emit({"e": "exec", "task": entry["task"], "prog": entry["prog"], "jumps": entry["jumps"],
-                   "sig": entry["sig"], "view": entry["view"]})
+                   "sig": entry["sig"], "view": entry["view"], "vh": view_hash(entry["view"])})
 
     # -- queue inspection (raw) ----------------------------------------------------------------
     def rows(self) -> list[dict]:
@@ -232,7 +239,8 @@ class Run:
         self.emit({"e": "warp", "id": self.proj.key_of(qid), "s": self.proj.state()})
 
     def expire(self, qid: int) -> None:
-        self.raw.execute("UPDATE queue_messages SET locked_until = NULL WHERE id = ?", (qid,))
+        # a lapsed lock is a timestamp in the past, not NULL (a predicate on `locked_until IS NULL` must not see it as free)
+        self.raw.execute("UPDATE queue_messages SET locked_until = '2000-01-01T00:00:00+00:00' WHERE id = ?", (qid,))
         self.emit({"e": "expire", "id": self.proj.key_of(qid), "s": self.proj.state()})
 
     def sweep(self) -> None:
